@@ -1347,9 +1347,48 @@ def importLoop (depth : Nat) (fs : FileSys) (path : String) (importing : List St
 
 end
 
-/-- `Parser.Parse(path)` -/
-def parse (fs : FileSys) (main : String) : PRes Parsed :=
-  parseFile (fs.files.length + 2) fs main false []
+/-- the main file as `Parse` sees it before the unused functions are removed: the statements of all imported files
+    and its own, and the call graph -/
+def parseRaw (fs : FileSys) (main : String) : PRes Parsed :=
+  if !fs.stat main then .error else
+  match fs.read main with
+  | none => .error
+  | some (src, _) =>
+    match tokensOf src with
+    | none => .error
+    | some toks =>
+      let st : PSt := { toks, pfx := "" }
+      match evalProgram (fs.files.length + 1) fs main [] (fuelFor toks.size) st with
+      | .ok body s => .ok ⟨body, s.usedFuncs, ""⟩ s
+      | .error => .error
+      | .panic => .panic
+      | .diverge => .diverge
 
+/-- `Parser.Parse(path)`: the main file (this is `parseFile` for a file that is not imported, written out), then the
+    removal of the unused functions -/
+def parse (fs : FileSys) (main : String) : PRes Parsed :=
+  match parseRaw fs main with
+  | .ok raw s =>
+    match cleanProgram raw.usedFuncs raw.body with
+    | some b => .ok ⟨b, raw.usedFuncs, ""⟩ s
+    | none => .diverge
+  | .error => .error
+  | .panic => .panic
+  | .diverge => .diverge
+
+theorem parse_eq_clean {fs : FileSys} {main : String} {p : Parsed} {s : PSt} (h : parse fs main = .ok p s) :
+    ∃ raw, parseRaw fs main = .ok raw s ∧ cleanProgram raw.usedFuncs raw.body = some p.body := by
+  unfold parse at h
+  split at h
+  · rename_i raw s1 hraw
+    split at h
+    · rename_i b hcl
+      simp only [PRes.ok.injEq] at h
+      obtain ⟨rfl, rfl⟩ := h
+      exact ⟨raw, hraw, hcl⟩
+    · simp at h
+  · simp at h
+  · simp at h
+  · simp at h
 
 end Tsh.Parser
